@@ -322,6 +322,25 @@ def run(chk, facts, tier, only=None):
         chk.expect(seq == ["count:type_table", "append:type_table", "count:args", "append:ty_encode"], "layout:type-section",
                    f"TypeSerialize::serialize must write the table length, the table entries, the argument count and the argument types; found {seq}",
                    ok_detail=str(seq))
+        # the type section is built into a buffer that lives as long as the builder: a second serialize()/serialize_to_vec() on the same
+        # builder must not append a second header to the first
+        first = None
+        for n in walk(h["body"]):
+            if first is not None:
+                break
+            if n.get("k") == "mcall" and (expr_path(n["recv"]) or "").startswith("self.") and "." in (expr_path(n["recv"]) or ""):
+                fld = expr_path(n["recv"])
+                if fld.endswith(".result"):
+                    first = ("fresh" if n["m"] in ("clear", "truncate") else "write" if n["m"] in ("append", "extend", "extend_from_slice", "push", "write_all") else None)
+            elif n.get("k") == "assign" and (expr_path(n["a"]) or "").endswith(".result") and (expr_path(n["a"]) or "").startswith("self."):
+                first = "fresh"
+            elif n.get("k") == "call" and any(a.get("k") == "ref" and a.get("mut") and (expr_path(a["e"]) or "").startswith("self.") and (expr_path(a["e"]) or "").endswith(".result")
+                                              for a in n.get("args") or []):
+                first = "write"
+        chk.expect(first != "write", "layout:type-section:fresh-buffer",
+                   "TypeSerialize::serialize appends the table and the argument types to `self.result` without emptying it first: a second "
+                   "`IDLBuilder::serialize_to_vec()` on the same builder returns `DIDL` + two type sections + the values, which is not a Candid message",
+                   where=f"{h['span']['file']}:{h['span']['lo']}", ok_detail="the buffer is emptied (or local) before the section is written")
         # one type and one value per argument, type first
         for fname in ("arg", "value_arg"):
             h = c.fn(r"ser::IDLBuilder::%s$" % fname)
@@ -343,3 +362,7 @@ def run(chk, facts, tier, only=None):
         chk.include(c09, "C09.R1", "C03.R7", facts)     # number writers: the (S)LEB128 encoders lose no significant bit (and cannot trap)
         chk.include(c09, "C09.R3", "C03.R8", facts)     # ... and use the LEB128 byte masks
         chk.include(c15, "C15.R3", "C03.R9", facts)     # field ids written on the wire come from the label the type declares (derive / field! provenance)
+        import c01
+        import c10
+        chk.include(c10, "C10.R4", "C03.R10", facts)    # typed encoding of untyped values: the record written is the record given (fields found by label id, whatever their order)
+        chk.include(c01, "C01.R4", "C03.R11", facts)    # the same arguments encode to the same bytes whatever was encoded before (type memo cleared per builder)
